@@ -167,7 +167,8 @@ def expected(case):
     name, a = case["name"], case["args"]
     if name in ("honeycomb_lattice", "make_honeycomb"):
         n = a[0]
-        nv = int(np.round(n / np.sqrt(3)))
+        nv = (math.isqrt(12 * n * n) + 3) // 6      # the integer nearest to n / sqrt(3), exactly
+        assert 3 * (2 * nv - 1) ** 2 < 4 * n * n < 3 * (2 * nv + 1) ** 2
         return True, {6: 2 * n * nv}, 3, 4 * n * nv, 6 * n * nv
     if name == "hex_square_oct_lattice":
         n = a[0]
@@ -388,7 +389,7 @@ def unit_cells(tier, seed, big=False):
                 {"family": "example", "name": "honeycomb_lattice", "args": [3]},
                 {"family": "example", "name": "square_lattice", "args": [1, 1]},
                 {"family": "example", "name": "square_lattice", "args": [3, 2]}]
-    nvor = 8 if tier == "quick" else 40
+    nvor = 8 if tier == "quick" else 120
     if big:
         nvor *= 3
     for i in range(nvor):
@@ -580,6 +581,78 @@ def validate_translator(ctx, big=False):
             break
 
 
+# ------------------------------------------------------------------ extraction cross-check (thorough tier)
+def gz(n):
+    n = int(n)
+    return str(n) if n >= 0 else f"({n})"
+
+
+def gpairs(l):
+    return "[" + "; ".join(f"({gz(a)}, {gz(b)})" for a, b in l) + "]"
+
+
+def coq_crosscheck(ctx, name, imports, examples, timeout=900):
+    """Re-evaluate a sample of driver answers INSIDE Coq (vm_compute): each example is (gallina term, gallina
+    value printed by the extracted driver).  A wrong Extract directive or a driver bug cannot then vouch for the
+    model silently.  Writes work/<name>.v (git-ignored), compiles it with coqc."""
+    import subprocess
+    work = os.path.join(VERIF, "work")
+    os.makedirs(work, exist_ok=True)
+    path = os.path.join(work, name + ".v")
+    body = [f"From Coq Require Import List ZArith Bool.", f"From Koala Require Import {imports}.", "Import ListNotations.", "Open Scope Z_scope."]
+    for i, (term, value) in enumerate(examples):
+        body.append(f"Example x{i} : {term} = {value}.\nProof. vm_compute. reflexivity. Qed.")
+    with open(path, "w") as f:
+        f.write("\n".join(body) + "\n")
+    p = subprocess.run(["timeout", str(timeout), "coqc", "-Q", os.path.join(VERIF, "coq"), "Koala", path],
+                       stdout=subprocess.PIPE, stderr=subprocess.STDOUT, text=True, cwd=work)
+    ctx.res.extra["extraction_crosscheck_cases"] = ctx.res.extra.get("extraction_crosscheck_cases", 0) + len(examples)
+    if p.returncode != 0:
+        ctx.k_mismatch(f"extraction cross-check {name}: in-Coq vm_compute disagrees with the extracted driver: {p.stdout[-600:]}", {"kind": "crosscheck", "file": path})
+
+
+def crosscheck(ctx):
+    exe = ctx.exe["c10"]
+    ex = []
+    # generators
+    gens = [("honeycomb", [2]), ("honeycomb", [3]), ("hso", [2]), ("tri_non", [2, 3]), ("square", [3, 2]), ("ladder", [5])]
+    outs = run_driver(exe, [f"gen {g} " + " ".join(hx(a) for a in args) for g, args in gens])
+    term = {"honeycomb": "honeycomb", "hso": "hex_square_oct", "tri_non": "tri_non", "square": "square", "ladder": "n_ladder_straight"}
+    for (g, args), o in zip(gens, outs):
+        m = parse_zl(o)
+        t = f"({term[g]} " + " ".join(gz(a) for a in args) + ")"
+        ex.append((f"z_edges {t}", gpairs(m["edges"])))
+        ex.append((f"z_crossing {t}", gpairs(m["crossing"])))
+        ex.append((f"z_pos {t}", gpairs(m["pos"])))
+        ex.append((f"z_scale {t}", gz(m["scale"])))
+    # tilings of small cells
+    cells = [c for c in unit_cells("quick", ctx.seed)][:12]
+    lines, meta = [], []
+    for i, cell in enumerate(cells):
+        arr, why = gen.try_build(cell)
+        if arr is None:
+            continue
+        P, E, C = arr
+        if len(P) > 16 or (len(E) and np.max(np.abs(C)) > 1):
+            continue
+        nx, ny = [(2, 3), (1, 2), (3, 1), (2, 2)][i % 4]
+        zl, S = ser_z(P, E, C)
+        lines.append(f"tile {zl} {hx(nx)} {hx(ny)}")
+        meta.append((P, E, C, S, nx, ny))
+    for (P, E, C, S, nx, ny), o in zip(meta, run_driver(exe, lines)):
+        m = parse_zl(o)
+        cell = f"(mkCell {gz(S)} {gpairs(scaled_ints(P, S))} {gpairs(E.tolist())} {gpairs(C.tolist())})"
+        t = f"(tile_unit_cell {cell} {gz(nx)} {gz(ny)})"
+        ex.append((f"z_edges {t}", gpairs(m["edges"])))
+        ex.append((f"z_crossing {t}", gpairs(m["crossing"])))
+        ex.append((f"z_pos {t}", gpairs(m["pos"])))
+    ex.append(("(honeycomb_ok 3, hso_ok 2, tri_non_ok 2 3, square_ok 3 2, ladder_ok 5, honeycomb_flux_sector_ok 3)", "(true, true, true, true, true, true)"))
+    outs = run_driver(exe, ["ok honeycomb 3", "ok hso 2", "ok tri_non 2 3", "ok square 3 2", "ok ladder 5"])
+    if any(o["ok"][0] != "1" for o in outs) or outs[0]["flux_ok"][0] != "1":
+        ctx.k_mismatch("extracted *_ok checkers reject the model lattices that the in-Coq theorems accept", {"kind": "crosscheck"})
+    coq_crosscheck(ctx, "c10_cases", "Gen.TilingGen Model.Lattice Model.Tiling Model.Examples", ex)
+
+
 ALL_SIZES = [(a, b) for a in range(1, 5) for b in range(1, 5)]
 
 
@@ -590,8 +663,15 @@ def run(ctx):
                     "non-trivial = distinct (generator, size) inside the quantifier, or a distinct tiled cell with at least one boundary-crossing edge")
     validate_translator(ctx)
     cases = generator_cases(ctx.tier)
+    if ctx.tier != "quick":
+        # beyond the quantifier (sizes 1 and larger ones): K always, S where the property applies
+        seen = {json.dumps(c, sort_keys=True) for c in cases}
+        cases += [c for c in generator_cases(ctx.tier, big=True) if json.dumps(c, sort_keys=True) not in seen]
     evaluate_generators(ctx, cases, "K(generators)")
-    evaluate_tilings(ctx, unit_cells(ctx.tier, ctx.seed), ALL_SIZES, "K(tile)", 40 if ctx.tier == "quick" else 300)
+    sizes = ALL_SIZES if ctx.tier == "quick" else ALL_SIZES + [(5, 1), (1, 5), (5, 3), (2, 5), (5, 5), (6, 2)]
+    evaluate_tilings(ctx, unit_cells(ctx.tier, ctx.seed), sizes, "K(tile)", 40 if ctx.tier == "quick" else 400)
+    if ctx.tier != "quick":
+        crosscheck(ctx)
 
 
 def search(ctx):
@@ -608,5 +688,7 @@ def replay(ctx, payload):
         evaluate_generators(ctx, [case], "replay")
     elif case.get("kind") == "tile":
         evaluate_tilings(ctx, [case["cell"]], [tuple(case["nxy"])], "replay", 1)
+    elif case.get("kind") == "crosscheck":
+        crosscheck(ctx)
     else:
         validate_translator(ctx)
